@@ -1,4 +1,213 @@
-import YncaVerif.Lemmas.L4Defs
+import YncaVerif.Lemmas.L4Basic
 /-! Helper lemmas for C01. -/
 namespace Ynca.L4
+
+/-- what is on the wire, in the sender's hands and still queued, in this order -/
+def held (s : St) : List (Nat × String) := wireCmds s.wire ++ inflight s.spc ++ queueCmds s.queue
+
+theorem held_congr {s s' : St} (hw : s'.wire = s.wire) (hp : s'.spc = s.spc) (hq : s'.queue = s.queue) :
+    held s' = held s := by
+  unfold held; rw [hw, hp, hq]
+
+theorem queueCmds_cons_inflight (m : Item) (q : List Item) :
+    inflight (.got m) ++ queueCmds q = queueCmds (m :: q) := by
+  cases m <;> simp [inflight, queueCmds]
+
+theorem queueCmds_append_nonCmd (q : List Item) (it : Item) (h : ∀ i t, it ≠ .cmd i t) :
+    queueCmds (q ++ [it]) = queueCmds q := by
+  cases it with
+  | cmd i t => exact absurd rfl (h i t)
+  | keepAlive => simp [queueCmds]
+  | exit => simp [queueCmds]
+
+theorem wireCmds_append (w : List (Nat × String × Option Nat)) (n : Nat) (t : String) (i : Option Nat) :
+    wireCmds (w ++ [(n, t, i)]) = wireCmds w ++ inflight (.writing t i) := by
+  cases i <;> simp [wireCmds, inflight]
+
+/-- effect of one step on the FIFO bookkeeping -/
+theorem fifo_delta (P : Params) (s s' : St) (l : Label) (o : Option Obs)
+    (hs : step P s l = some (s', o)) :
+    (held s' = held s ∧ submittedCmds s' = submittedCmds s ∧
+        (lossBegun s'.rpc = false → lossBegun s.rpc = false) ∧ (s'.spc ≠ .dead → s.spc ≠ .dead))
+    ∨ (∃ x, held s' = held s ++ [x] ∧ submittedCmds s' = submittedCmds s ++ [x] ∧
+        s'.rpc = s.rpc ∧ s'.spc = s.spc)
+    ∨ (List.Sublist (held s') (held s) ∧ submittedCmds s' = submittedCmds s ∧
+        (lossBegun s'.rpc = true ∨ s'.spc = .dead ∨ early s.rpc)) := by
+  cases step_kind P s s' l o hs with
+  | tick d h => subst h; exact .inl ⟨rfl, rfl, id, id⟩
+  | sender o h =>
+    cases stepS_kind P s s' o h with
+    | get dl m q hp hq h _ =>
+      subst h; refine .inl ⟨?_, rfl, id, by simp [hp]⟩
+      show wireCmds s.wire ++ inflight (.got m) ++ queueCmds q
+        = wireCmds s.wire ++ inflight s.spc ++ queueCmds s.queue
+      rw [hp, hq, List.append_assoc, queueCmds_cons_inflight]; simp [inflight]
+    | timeout dl hp hq hd h _ =>
+      subst h; exact .inl ⟨by simp [held, hp, inflight], rfl, id, by simp [hp]⟩
+    | putKA hp h _ =>
+      subst h; refine .inl ⟨?_, rfl, id, by simp [hp]⟩
+      simp [held, hp, inflight, enqueue, queueCmds_append_nonCmd]
+    | exit hp h _ => subst h; exact .inl ⟨by simp [held, hp, inflight], rfl, id, by simp [hp]⟩
+    | flag hp h _ => subst h; exact .inl ⟨by simp [held, hp, inflight], rfl, id, by simp [hp]⟩
+    | classify i t hp h _ => subst h; exact .inl ⟨by simp [held, hp, inflight], rfl, id, by simp [hp]⟩
+    | log t i hp h _ =>
+      subst h; refine .inl ⟨?_, rfl, id, by simp [hp]⟩
+      cases i <;> simp [held, hp, inflight]
+    | lock t i hp h _ =>
+      subst h; refine .inl ⟨?_, rfl, id, by simp [hp]⟩
+      cases i <;> simp [held, hp, inflight]
+    | die t i hp h _ =>
+      subst h; refine .inr (.inr ⟨?_, rfl, .inr (.inl rfl)⟩)
+      simp only [held, inflight, List.append_nil]
+      exact List.Sublist.append (List.sublist_append_left _ _) (List.Sublist.refl _)
+    | write t i hp h _ =>
+      subst h; refine .inl ⟨?_, rfl, id, by simp [hp]⟩
+      simp only [held, hp, wireCmds_append, inflight, List.append_nil]
+    | unlock hp h _ => subst h; exact .inl ⟨by simp [held, hp, inflight], rfl, id, by simp [hp]⟩
+    | wake u hp hu h _ => subst h; exact .inl ⟨by simp [held, hp, inflight], rfl, id, by simp [hp]⟩
+  | submit t text hq h =>
+    subst h
+    refine .inr (.inl ⟨(s.nextId, text), ?_, ?_, by simp, by simp⟩)
+    · simp [held, queueCmds]
+    · simp [submittedCmds]
+  | made0 hr0 h =>
+    subst h
+    refine .inr (.inr ⟨?_, rfl, .inr (.inr (.inr hr0))⟩)
+    simp only [held, inflight, queueCmds, List.filterMap_nil, List.append_nil]
+    exact List.Sublist.trans (List.sublist_append_left _ _) (List.sublist_append_left _ _)
+  | enq it r' hit hre _ h =>
+    subst h
+    exact .inl ⟨by simp [held, enqueue, queueCmds_append_nonCmd _ _ hit], rfl, hre.loss_mono, id⟩
+  | drain x q hr hq h =>
+    subst h
+    refine .inr (.inr ⟨?_, rfl, .inl (by simp [hr, lossBegun])⟩)
+    simp only [held, hq]
+    refine List.Sublist.append (List.Sublist.refl _) ?_
+    rw [← queueCmds_cons_inflight]
+    exact List.sublist_append_right _ _
+  | split l rest hr h => subst h; exact .inl ⟨rfl, rfl, by simp [hr, lossBegun], id⟩
+  | logRecv l hr h => subst h; exact .inl ⟨rfl, rfl, by simp [hr, lossBegun], id⟩
+  | env hc hre =>
+    exact .inl ⟨held_congr hc.wire hc.spc hc.queue, hc.submittedCmds, hre.loss_mono, by rw [hc.spc]; exact id⟩
+
+theorem fifo_sublist (P : Params) (s : St) (h : Reachable P s) :
+    List.Sublist (wireCmds s.wire ++ inflight s.spc ++ queueCmds s.queue) (submittedCmds s) := by
+  refine reachable_induction P (fun s => List.Sublist (held s) (submittedCmds s)) ?_ ?_ s h
+  · simp [held, submittedCmds, wireCmds, inflight, queueCmds]
+  · intro s s' l o hi hs
+    rcases fifo_delta P s s' l o hs with ⟨h1, h2, _⟩ | ⟨x, h1, h2, _⟩ | ⟨h1, h2, _⟩
+    · rw [h1, h2]; exact hi
+    · rw [h1, h2]; exact List.Sublist.append hi (List.Sublist.refl _)
+    · rw [h2]; exact h1.trans hi
+
+theorem fifo_exact_while_up (P : Params) (s : St) (h : Reachable P s)
+    (hup : lossBegun s.rpc = false) (hs : s.spc ≠ .dead) :
+    wireCmds s.wire ++ inflight s.spc ++ queueCmds s.queue = submittedCmds s := by
+  refine reachable_induction' P
+    (fun s => lossBegun s.rpc = false → s.spc ≠ .dead → held s = submittedCmds s) ?_ ?_ s h hup hs
+  · intro _ _; simp [held, submittedCmds, wireCmds, inflight, queueCmds]
+  · intro s s' l o hr hi hs hup' hs'
+    rcases fifo_delta P s s' l o hs with ⟨h1, h2, h3, h4⟩ | ⟨x, h1, h2, h3, h4⟩ | ⟨h1, h2, h3⟩
+    · rw [h1, h2]; exact hi (h3 hup') (h4 hs')
+    · rw [h1, h2, hi (h3 ▸ hup') (h4 ▸ hs')]
+    · rcases h3 with h3 | h3 | h3
+      · rw [h3] at hup'; cases hup'
+      · exact absurd h3 hs'
+      · have he := earlyInv P s hr h3
+        have : held s = [] := by
+          simp [held, he.1, he.2.2.1, he.2.2.2.2.1, wireCmds, inflight, queueCmds]
+        rw [this] at h1
+        rw [h2, List.eq_nil_of_sublist_nil h1]
+        simp [submittedCmds, he.2.2.2.1]
+
+/-- ids are handed out in increasing order -/
+def IdsInv (s : St) : Prop :=
+  (∀ e ∈ s.submitted, e.2.1 < s.nextId) ∧ ((submittedCmds s).map (·.1)).Nodup
+
+theorem IdsInv.congr {s s' : St} (hi : IdsInv s) (h1 : s'.submitted = s.submitted) (h2 : s'.nextId = s.nextId) :
+    IdsInv s' := by
+  unfold IdsInv submittedCmds at *
+  rw [h1, h2]; exact hi
+
+theorem idsInv_step (P : Params) (s s' : St) (l : Label) (o : Option Obs) (hi : IdsInv s)
+    (hs : step P s l = some (s', o)) : IdsInv s' := by
+  cases step_kind P s s' l o hs with
+  | tick d h => subst h; exact hi
+  | sender o h => cases stepS_kind P s s' o h <;> subst_vars <;> exact hi
+  | submit t text hq h =>
+    subst h
+    obtain ⟨h1, h2⟩ := hi
+    constructor
+    · intro e he
+      simp only [setUpc_submitted, List.mem_append, List.mem_singleton, setUpc_nextId] at he ⊢
+      rcases he with he | rfl
+      · exact Nat.lt_succ_of_lt (h1 e he)
+      · exact Nat.lt_succ_self _
+    · simp only [submittedCmds, setUpc_submitted, List.map_append, List.map_cons, List.map_nil,
+        List.map_map] at h2 ⊢
+      rw [List.nodup_append]
+      refine ⟨h2, by simp, ?_⟩
+      intro a ha b hb
+      simp only [List.mem_map, Function.comp] at ha
+      obtain ⟨e, he, rfl⟩ := ha
+      simp only [List.mem_singleton] at hb
+      subst hb
+      exact Nat.ne_of_lt (h1 e he)
+  | made0 hr0 h => subst h; exact hi
+  | enq it r' _ _ _ h => subst h; exact hi
+  | drain x q _ _ h => subst h; exact hi
+  | split l rest _ h => subst h; exact hi
+  | logRecv l _ h => subst h; exact hi
+  | env hc hre => exact hi.congr hc.submitted hc.nextId
+
+theorem submitted_ids_nodup (P : Params) (s : St) (h : Reachable P s) : ((submittedCmds s).map (·.1)).Nodup :=
+  (reachable_induction P IdsInv (by simp [IdsInv, submittedCmds]) (idsInv_step P) s h).2
+
+/-- whatever the sender holds without a user id is the probe -/
+def probePc : SPc → Prop
+  | .logging t none => t = probe
+  | .lockWait t none => t = probe
+  | .writing t none => t = probe
+  | _ => True
+
+def ProbeInv (s : St) : Prop := (∀ e ∈ s.wire, e.2.2 = none → e.2.1 = probe) ∧ probePc s.spc
+
+theorem probeInv_step (P : Params) (s s' : St) (l : Label) (o : Option Obs) (hi : ProbeInv s)
+    (hs : step P s l = some (s', o)) : ProbeInv s' := by
+  have ⟨h1, h2⟩ := hi
+  cases step_kind P s s' l o hs with
+  | tick d h => subst h; exact hi
+  | sender o h =>
+    cases stepS_kind P s s' o h with
+    | get dl m q hp hq h _ => subst h; exact ⟨h1, trivial⟩
+    | timeout dl hp hq hd h _ => subst h; exact ⟨h1, trivial⟩
+    | putKA hp h _ => subst h; exact ⟨h1, trivial⟩
+    | exit hp h _ => subst h; exact ⟨h1, trivial⟩
+    | flag hp h _ => subst h; exact ⟨h1, rfl⟩
+    | classify i t hp h _ => subst h; exact ⟨h1, trivial⟩
+    | log t i hp h _ => subst h; rw [hp] at h2; exact ⟨h1, by cases i <;> exact h2⟩
+    | lock t i hp h _ => subst h; rw [hp] at h2; exact ⟨h1, by cases i <;> exact h2⟩
+    | die t i hp h _ => subst h; exact ⟨h1, trivial⟩
+    | write t i hp h _ =>
+      subst h; rw [hp] at h2
+      refine ⟨?_, trivial⟩
+      intro e he hn
+      simp only [List.mem_append, List.mem_singleton] at he
+      rcases he with he | rfl
+      · exact h1 e he hn
+      · simp only at hn; subst hn; exact h2
+    | unlock hp h _ => subst h; exact ⟨h1, trivial⟩
+    | wake u hp hu h _ => subst h; exact ⟨h1, trivial⟩
+  | submit t text hq h => subst h; exact ⟨by simpa using h1, by simpa using h2⟩
+  | made0 hr0 h => subst h; exact ⟨h1, trivial⟩
+  | enq it r' _ _ _ h => subst h; exact hi
+  | drain x q _ _ h => subst h; exact hi
+  | split l rest _ h => subst h; exact hi
+  | logRecv l _ h => subst h; exact hi
+  | env hc hre => unfold ProbeInv; rw [hc.wire, hc.spc]; exact hi
+
+theorem wire_non_user_is_probe (P : Params) (s : St) (h : Reachable P s) :
+    ∀ e ∈ s.wire, e.2.2 = none → e.2.1 = probe :=
+  (reachable_induction P ProbeInv (by simp [ProbeInv, probePc]) (probeInv_step P) s h).1
+
 end Ynca.L4
